@@ -384,8 +384,17 @@ func PackHint(h *[K][N]int64) []byte {
 	return hb
 }
 
+// Loose names verifier-side conditions to leave out. The zero value is the
+// specification. Non-zero values exist only so that a monitor can confirm that a
+// crafted signature is rejected by exactly one condition ("isolating").
+type Loose struct{ ZNorm, Unordered, Duplicate, Padding bool }
+
 // UnpackHint decodes strictly; reason names the rule that refused.
 func UnpackHint(hb []byte) (h [K][N]int64, ok bool, reason string) {
+	return UnpackHintLoose(hb, Loose{})
+}
+
+func UnpackHintLoose(hb []byte, lo Loose) (h [K][N]int64, ok bool, reason string) {
 	k := 0
 	for i := 0; i < K; i++ {
 		cnt := int(hb[Omega+i])
@@ -396,10 +405,10 @@ func UnpackHint(hb []byte) (h [K][N]int64, ok bool, reason string) {
 			return h, false, "count-over-omega"
 		}
 		for j := k; j < cnt; j++ {
-			if j > k && hb[j] < hb[j-1] {
+			if j > k && hb[j] < hb[j-1] && !lo.Unordered {
 				return h, false, "unordered"
 			}
-			if j > k && hb[j] == hb[j-1] {
+			if j > k && hb[j] == hb[j-1] && !lo.Duplicate {
 				return h, false, "duplicate"
 			}
 			h[i][hb[j]] = 1
@@ -407,7 +416,7 @@ func UnpackHint(hb []byte) (h [K][N]int64, ok bool, reason string) {
 		k = cnt
 	}
 	for j := k; j < Omega; j++ {
-		if hb[j] != 0 {
+		if hb[j] != 0 && !lo.Padding {
 			return h, false, "padding"
 		}
 	}
@@ -664,7 +673,9 @@ func (k *Key) Sign(msg []byte, kn Knobs) (sig []byte, att []Attempt) {
 }
 
 // Verify per the specification; why names the first failing condition.
-func Verify(pk, msg, sig []byte) (ok bool, why string) {
+func Verify(pk, msg, sig []byte) (ok bool, why string) { return VerifyLoose(pk, msg, sig, Loose{}) }
+
+func VerifyLoose(pk, msg, sig []byte, lo Loose) (ok bool, why string) {
 	if len(pk) != PKBytes || len(sig) != SigBytes {
 		return false, "size"
 	}
@@ -684,12 +695,12 @@ func Verify(pk, msg, sig []byte) (ok bool, why string) {
 			z[i][n] = Mod(v[n])
 		}
 	}
-	h, hok, reason := UnpackHint(sig[32+640*L:])
+	h, hok, reason := UnpackHintLoose(sig[32+640*L:], lo)
 	if !hok {
 		return false, "hint-" + reason
 	}
 	for i := 0; i < L; i++ {
-		if InfNorm(&z[i]) >= Gamma1-Beta {
+		if InfNorm(&z[i]) >= Gamma1-Beta && !lo.ZNorm {
 			return false, "z-norm"
 		}
 	}
